@@ -151,6 +151,8 @@ def classify(log):
              "excluded:constant-division-by-zero"),
             (r"BPF_ATOMIC stores into R\d+ pkt", "atomic-on-packet"),
             (r"unreachable insn", "unreachable-insn"),
+            (r"jump into the middle of ldimm64|invalid bpf_ld_imm64 insn|"
+             r"jump out of range", "broken-jump"),
             (r"invalid (indirect )?(read|access) (from|to) stack|"
              r"invalid (indirect )?access to stack|invalid read from stack",
              "stack-out-of-bounds"),
@@ -251,8 +253,10 @@ KNOWN = {
     # same root cause as C03-bit-test-elif-else: the instruction splicing of
     # `with bit-test as Else` chains leaves a jump target inside dead code
     "C05-bit-test-elif-else":
-        lambda case, res: "unreachable-insn" in res.get("facts", ())
-        and case["gen"] == "c03"
+        # (the mis-spliced jumps land anywhere: unreachable code, the middle
+        # of a 16 byte instruction, behind the load of a register - whatever
+        # the verifier complains about first)
+        lambda case, res: case["gen"] == "c03"
         and "bit-test-elif-else" in res.get("facts", ()),
     "C05-exit-then-else":
         lambda case, res: "unreachable-insn" in res.get("facts", ())
